@@ -146,3 +146,13 @@ Theorem C09_component_layout_is_sole_layout_translated_brandes_koepf : forall (A
     (exists x, layout_component_x bk o c = Ok (nth k gs graph0, x) /\ xs1 = match x with Some v => [v] | None => [] end).
 Proof. exact component_layout_x_is_sole_layout_translated. Qed.
 Print Assumptions C09_component_layout_is_sole_layout_translated_brandes_koepf.
+
+(* ---------- regenerated from the source on every run (translator): Layout never assigns to its own copy of the
+   options after the Option functions were applied, so every connected component is processed with the same
+   parameters whatever the rest of the input looks like (a per-component parameter derived from the whole graph, e.g.
+   an iteration budget from the total node count, would break "the layout it would receive as the sole input" only
+   on inputs whose budget binds) ---------- *)
+From Autog Require Facts.
+Theorem C09_same_options_for_every_component : Facts.layout_option_writes = [].
+Proof. reflexivity. Qed.
+Print Assumptions C09_same_options_for_every_component.
